@@ -3761,6 +3761,9 @@ impl Lexer<'_> {
         // What are we comparing the ending against
         let (ending, ending_len) = if is_datalines4 { (";;;;", 4) } else { (";", 1) };
 
+        // Whether the full ending was found
+        let mut terminated = true;
+
         loop {
             match self.cursor.peek() {
                 Some('\n') => {
@@ -3774,6 +3777,7 @@ impl Lexer<'_> {
                         // Not enough characters left to match the ending
                         // Emit error, but assume that we found the ending
                         self.emit_error(ErrorKind::UnterminatedDatalines);
+                        terminated = false;
                         break;
                     }
 
@@ -3800,9 +3804,14 @@ impl Lexer<'_> {
         // Start the new token
         self.start_token();
 
-        // Consume the ending
-        #[allow(clippy::cast_possible_truncation)]
-        self.cursor.advance_by(ending_len as u32);
+        // Consume the ending. If it is incomplete, consume only the `;` that are there,
+        // never unrelated characters (which may include line feeds)
+        if terminated {
+            #[allow(clippy::cast_possible_truncation)]
+            self.cursor.advance_by(ending_len as u32);
+        } else {
+            self.cursor.eat_while(|c| c == ';');
+        }
 
         // Add the datalines end token
         self.emit_token(TokenChannel::DEFAULT, TokenType::SEMI, Payload::None);
